@@ -4,7 +4,7 @@
     (HailG.C37.Gen): Double is modelled by exact rationals, Int by 32-bit integers, an exception or a non-finite result is
     [None]. Not covered: floating-point rounding, the stream cut-offs (1e-16) and tolerances (1e-12), the commons-math
     distribution functions (pchisqtail, HypergeometricDistribution), uniroot; nothing of the engine is executed. *)
-From HailV Require Import Common.Prelude CallPacking.Model Stats.Model Stats.Lemmas Stats.LemmasLH.
+From HailV Require Import Common.Prelude CallPacking.Model Stats.Model Stats.Pipeline Stats.Lemmas Stats.LemmasLH.
 From Coq Require Import QArith.
 From HailG Require Import C37.Gen.
 Open Scope Z_scope.
